@@ -139,9 +139,16 @@ def run(tier, rep, ev):
 
     outs = sandbox.run_cases(roundtrip.run_case, cases, timeout=120, nproc=16, timeout_fn=tmo)
     sess, sorig, streams, strorig = [], [], [], []
+    failed = [k for k, (c, o) in enumerate(zip(cases, outs)) if o.status != "ok" or not o.value["session"][-1].get("ok", True)]
+    # isolate the delegated BCJ library (filters next to anything the lzma module does not chain itself): the pieces py7zr handed to
+    # it, pushed through the library alone, against the same bytes pushed through at once
+    bsus = [k for k in failed if set(cases[k]["chain"]) & set(roundtrip.BCJ_NAMES) and outs[k].status == "ok"]
+    biso = sandbox.run_cases(roundtrip.bcj_log_check, [dict(cases[k], wd=cases[k]["wd"] + "-b") for k in bsus], timeout=300, nproc=8)
+    bcj_bad = {k: r.value for k, r in zip(bsus, biso) if r.status == "ok" and r.value != "ok"}
+    for k in sorted(bcj_bad):
+        rep.violation("delegated-codec:bcj", f"configuration {cases[k]['chain']}: {bcj_bad[k]}", {"case": {a: b for a, b in cases[k].items() if a != "wd"}})
     # isolate the delegated PPMd library: when a PPMd configuration fails, does pyppmd alone round-trip the same data?
-    suspects = [k for k, (c, o) in enumerate(zip(cases, outs)) if "PPMd" in c["chain"] and
-                (o.status != "ok" or not o.value["session"][-1].get("ok", True))]
+    suspects = [k for k in failed if "PPMd" in cases[k]["chain"] and k not in bcj_bad]
     iso = sandbox.run_cases(roundtrip.ppmd_selfcheck, [cases[k] for k in suspects], timeout=120, nproc=8)
     ppmd_bad = {k for k, r in zip(suspects, iso) if not (r.status == "ok" and r.value == "ok")}
     # second isolation: the exact calls py7zr made on pyppmd's decoder, logged and replayed against pyppmd alone (a crash counts)
@@ -162,7 +169,7 @@ def run(tier, rep, ev):
     for k, (c, o) in enumerate(zip(cases, outs)):
         desc = {k2: v for k2, v in c.items() if k2 != "wd"}
         ev.case(json.dumps(desc, default=str))
-        if k in ppmd_bad:
+        if k in ppmd_bad or k in bcj_bad:
             continue
         if o.status == "ok":
             sess.append(o.value["session"])
